@@ -1,6 +1,8 @@
 package main
 
 import (
+	_ "embed"
+	"encoding/json"
 	"fmt"
 	"go/token"
 	"go/types"
@@ -258,9 +260,9 @@ func (tb *termBuilder) term(v ssa.Value, at ssa.Instruction) *Term {
 		}
 		return &Term{Op: "const", Name: x.Value.ExactString(), V: v}
 	case *ssa.Parameter:
-		return &Term{Op: "param", Name: x.Name(), V: v}
+		return &Term{Op: "param", Name: pinnedParamName(x), V: v}
 	case *ssa.FreeVar:
-		return &Term{Op: "free", Name: x.Name(), V: v}
+		return &Term{Op: "free", Name: pinnedFreeVarName(x), V: v}
 	case *ssa.Global:
 		return &Term{Op: "global", Name: short(x.Pkg.Pkg.Path()) + "." + x.Name(), V: v}
 	case *ssa.Function:
@@ -785,4 +787,62 @@ func fieldNameAt(t types.Type, path []int) string {
 		cur = deref(st.Field(f).Type())
 	}
 	return strings.Join(names, ".")
+}
+
+// ---------------------------------------------------------------------------
+// pinned parameter names: rules are written against the parameter names of the pinned tree. A parameter is
+// rendered by the name it had at its POSITION in the pinned tree, so renaming a parameter (a behaviour-preserving
+// edit) does not change any term; adding/removing/reordering parameters does (that changes the function's contract).
+
+//go:embed pinned_params.json
+var pinnedParamsJSON []byte
+
+var pinnedParams map[string][]string
+
+func loadPinned() {
+	if pinnedParams != nil {
+		return
+	}
+	pinnedParams = map[string][]string{}
+	_ = json.Unmarshal(pinnedParamsJSON, &pinnedParams)
+}
+
+func pinnedParamName(p *ssa.Parameter) string {
+	loadPinned()
+	fn := p.Parent()
+	if fn == nil {
+		return p.Name()
+	}
+	names, ok := pinnedParams[short(fn.String())]
+	if !ok {
+		return p.Name()
+	}
+	for i, q := range fn.Params {
+		if q == p {
+			if i < len(names) && len(names) == len(fn.Params) {
+				return names[i]
+			}
+		}
+	}
+	return p.Name()
+}
+
+func pinnedFreeVarName(v *ssa.FreeVar) string {
+	loadPinned()
+	fn := v.Parent()
+	if fn == nil {
+		return v.Name()
+	}
+	names, ok := pinnedParams["free|"+short(fn.String())]
+	if !ok {
+		return v.Name()
+	}
+	for i, q := range fn.FreeVars {
+		if q == v {
+			if i < len(names) && len(names) == len(fn.FreeVars) {
+				return names[i]
+			}
+		}
+	}
+	return v.Name()
 }
